@@ -13,10 +13,20 @@
 (*                                                                         *)
 (* FASTALL = FALSE models `is_same` comparing only the first two words     *)
 (* (negative control, expected to fail).                                   *)
+(*                                                                         *)
+(* CNTMOD models the machine word in which the strobe count  count * N  of *)
+(* the fast path is computed.  The repeat count itself is a machine word   *)
+(* (count < CNTMOD), the product need not be: CNTMOD = 0 is the repaired   *)
+(* code (product formed in a type twice as wide, never wraps); CNTMOD = k  *)
+(* is the pinned tree (defect 5): product formed modulo k -- with overflow *)
+(* checks the call panics (pc = "panic"), without them it wraps and the    *)
+(* loop `for _ in 1 .. product` runs product - 1 times, or not at all if   *)
+(* the product wrapped to 0.  PANICS chooses between the two build modes.  *)
 (***************************************************************************)
 EXTENDS Integers, Sequences, FiniteSets, TLC
 
-CONSTANTS NS, MAXCOUNT, FAULTS, FASTALL
+CONSTANTS NS, MAXCOUNT, FAULTS, FASTALL, CNTMOD, PANICS
+ASSUME CNTMOD = 0 \/ MAXCOUNT < CNTMOD
 
 VARIABLES call, pc, dc, wr, bus, q, strobes, next, samples, budget, err
 vars == <<call, pc, dc, wr, bus, q, strobes, next, samples, budget, err>>
@@ -39,6 +49,10 @@ Flat(pxs) == IF pxs = <<>> THEN <<>> ELSE [j \in 1 .. Len(pxs) * Len(pxs[1]) |->
 Rep(px, c) == [j \in 1 .. c * Len(px) |-> px[((j - 1) % Len(px)) + 1]]
 AllSame(px) == IF FASTALL THEN \A i \in 1 .. Len(px) : px[i] = px[1]
                ELSE Len(px) = 1 \/ px[1] = px[2]            \* the faulty shortcut
+
+Wraps(p) == CNTMOD # 0 /\ p >= CNTMOD
+Product(p) == IF CNTMOD = 0 THEN p ELSE p % CNTMOD
+Max0(x) == IF x < 0 THEN 0 ELSE x
 
 Fail(kind) == /\ budget > 0 /\ budget' = budget - 1 /\ pc' = "err" /\ err' = kind
               /\ UNCHANGED <<call, dc, wr, bus, q, strobes, next, samples>>
@@ -70,7 +84,10 @@ PStart == pc = "p.start" /\ Words(Flat(call.pixels), "ret") /\ UNCHANGED <<call,
 RStart == /\ pc = "r.start"
           /\ IF call.count = 0 THEN pc' = "ret" /\ UNCHANGED <<q, next, strobes>>
              ELSE IF AllSame(call.pixel)
-                  THEN pc' = "w.lo" /\ q' = <<call.pixel[1]>> /\ next' = "r.strobe" /\ strobes' = call.count * Len(call.pixel) - 1
+                  THEN IF Wraps(call.count * Len(call.pixel)) /\ PANICS
+                       THEN pc' = "w.lo" /\ q' = <<call.pixel[1]>> /\ next' = "panic" /\ UNCHANGED strobes
+                       ELSE pc' = "w.lo" /\ q' = <<call.pixel[1]>> /\ next' = "r.strobe"
+                            /\ strobes' = Max0(Product(call.count * Len(call.pixel)) - 1)
                   ELSE Words(Rep(call.pixel, call.count), "ret") /\ UNCHANGED strobes
           /\ UNCHANGED <<call, dc, wr, bus, samples, budget, err>>
 RStrobe == /\ pc = "r.strobe"
@@ -96,5 +113,6 @@ Latched == pc = "ret" => (samples = Expected /\ dc = 1)
 \* C12 / C07: at any moment, and in particular after a failure, what was latched is a prefix of what was to be sent
 PrefixAlways == IsPrefix(samples, Expected)
 ErrNamed == pc = "err" => err \in {"Wr", "Bus", "Dc"}
-Termination == <>(pc \in {"ret", "err"})
+NoPanic == pc # "panic"
+Termination == <>(pc \in {"ret", "err", "panic"})
 =============================================================================
